@@ -303,3 +303,48 @@ func VerifH_C17_alignment() {
 		verifAssert(ok && got == v, "aligned-roundtrip")
 	}
 }
+
+// alignment-only items ("X" + option) anywhere, also at the very end of the
+// format: pack, packsize and unpack agree on the layout (padding to the
+// option's alignment, capped by !n), unpack accepts exactly what pack produced
+// and returns the position after the padding
+func VerifH_C17_alignment_only_items() {
+	n := [3]int{2, 4, 8}[verifChoose("maxalign", 3)]
+	w := [3]int{2, 4, 8}[verifChoose("xwidth", 3)]
+	lead := 1 + verifChoose("lead", 3) // 1..3 leading bytes
+	trailing := verifChoose("trailing", 2) == 1
+	v := nondetInt64("v")
+	verifAssume(v >= -128 && v <= 127)
+	format := "<!" + vhItoa(n)
+	vals := []rt.Value{}
+	for i := 0; i < lead; i++ {
+		format += "b"
+		vals = append(vals, rt.IntValue(v))
+	}
+	format += "Xi" + vhItoa(w)
+	if trailing {
+		format += "b"
+		vals = append(vals, rt.IntValue(v))
+	}
+	a := w
+	if n < a {
+		a = n
+	}
+	want := lead
+	if r := lead % a; r != 0 {
+		want = lead + a - r
+	}
+	if trailing {
+		want++
+	}
+	packed, _, err := PackValues(format, vals, 0)
+	verifAssert(err == nil && len(packed) == want, "pack-pads-to-the-alignment")
+	if err != nil {
+		return
+	}
+	sz, serr := PackSize(format)
+	verifAssert(serr == nil && int(sz) == len(packed), "packsize-agrees")
+	got, next, _, uerr := UnpackString(format, packed, 0, 0)
+	verifAssert(uerr == nil, "unpack-accepts-what-pack-produced")
+	verifAssert(uerr != nil || (len(got) == len(vals) && next == len(packed)), "unpack-returns-every-value-and-the-end-position")
+}
